@@ -14,7 +14,9 @@ RULE = (
     "listing; all module symbols must be attached. non-trivial = apply() "
     "returned with >=1 edit and >=1 label compared; distinct = distinct shape "
     "signatures. Modules and patches as in C01 (zero-sized input blocks "
-    "carry labels too)."
+    "carry labels too). A label that slid off a wholly deleted block in "
+    "front of a data block must be the START of what follows, not the end "
+    "of the block in front (referent identity and at_end are compared)."
 )
 ASSUMPTIONS = [
     "position = (section, byte offset counted over the section's original intervals in original order), so the end of one interval and the start of the next are the same place",
